@@ -146,6 +146,8 @@ def b_len(eng, st, node, a, kw, k, ctx):
     v = a[0]
     if v.s[0] == "list":
         return k(st, V(INT, eng.list_len(st, v)))
+    if v.s[0] == "dict":
+        return k(st, V(INT, eng.dict_len(st, v)))
     if v.s == PY:
         return k(st, py(len(v.t)))
     if v.s == STR:
